@@ -49,9 +49,12 @@ def compound (atoms : List (Str × Nat)) (acc : Nat) : List Str → Option Nat
     | none => none
     | some v => compound atoms (if acc = 4 ∧ v = 20 then 80 else acc + v) ps
 
+/-- `c` is the character `g` -/
+def eqChar (g : Char) (c : Char) : Bool := c == g
+
 /-- pieces of a word between hyphens (no empty piece: `a--b`, `-a` are not number words) -/
 def hyphenPieces (w : Str) : Option (List Str) :=
-  let ps := splitKeep (· = '-') w
+  let ps := splitKeep (eqChar '-') w
   if ps.all (fun p => !p.isEmpty) then some ps else none
 
 /-- the vocabulary of a numeral system -/
@@ -141,9 +144,7 @@ def ordWordsFr : List (Str × Str) :=
 def isSep (c : Char) : Bool := c = ' ' || c = '-'
 
 /-- (everything up to and including the last separator, the last word) -/
-def splitLast (x : Str) : Str × Str :=
-  let w := (x.reverse.takeWhile (fun c => !isSep c)).reverse
-  (x.take (x.length - w.length), w)
+def splitLast (x : Str) : Str × Str := tailSplit (fun c => !isSep c) x
 
 /-- **the ordinal ending rule**: the last word of the cardinal takes its ordinal form; French 1 is
     `premier` / `première`. `none`: the text does not end with a number word. -/
@@ -154,18 +155,18 @@ def ordRule (ℓ : Lang) (g : Gender) (x : Str) : Option Str :=
     if x = s "un" then some (if g = .f then s "première" else s "premier")
     else let (pre, w) := splitLast x; (lookup w ordWordsFr).map (fun o => pre ++ o)
 
-/-! ### Roman numerals: the canonical numeral by greedy subtraction, and the value of a numeral -/
+/-! ### Roman numerals: the canonical numeral (one standard group per decimal digit), and the value of a numeral -/
 
-def romanTable : List (Nat × Str) :=
-  [(1000, s "M"), (900, s "CM"), (500, s "D"), (400, s "CD"), (100, s "C"), (90, s "XC"), (50, s "L"),
-   (40, s "XL"), (10, s "X"), (9, s "IX"), (5, s "V"), (4, s "IV"), (1, s "I")]
+def romanOnes : List Str := [s "", s "I", s "II", s "III", s "IV", s "V", s "VI", s "VII", s "VIII", s "IX"]
+def romanTens : List Str := [s "", s "X", s "XX", s "XXX", s "XL", s "L", s "LX", s "LXX", s "LXXX", s "XC"]
+def romanHundreds : List Str := [s "", s "C", s "CC", s "CCC", s "CD", s "D", s "DC", s "DCC", s "DCCC", s "CM"]
+def romanThousands : List Str := [s "", s "M", s "MM", s "MMM"]
 
-/-- greedy: of each entry in turn, as many copies as fit -/
-def romanGreedy : Nat → List (Nat × Str) → Str
-  | _, [] => []
-  | n, (v, r) :: tb => (List.replicate (n / v) r).flatten ++ romanGreedy (n % v) tb
-
-def romanCanon (n : Nat) : Str := romanGreedy n romanTable
+/-- the canonical Roman numeral of `1 ≤ n ≤ 3999`: thousands, hundreds, tens, units, each written with the
+    standard group of its digit (subtractive `IV`, `IX`, `XL`, `XC`, `CD`, `CM`) -/
+def romanCanon (n : Nat) : Str :=
+  romanThousands.getD (n / 1000) [] ++ romanHundreds.getD (n / 100 % 10) [] ++ romanTens.getD (n / 10 % 10) []
+    ++ romanOnes.getD (n % 10) []
 
 def romanDigit (c : Char) : Option Nat :=
   if c = 'I' then some 1 else if c = 'V' then some 5 else if c = 'X' then some 10 else if c = 'L' then some 50
@@ -194,7 +195,7 @@ def natOfDigits (acc : Nat) : Str → Option Nat
 /-- an unsigned integer written with the grouping sign `g`: first group of 1 to 3 digits, then groups of exactly
     3 digits -/
 def parseGrouped (g : Char) (x : Str) : Option Nat :=
-  match splitKeep (· = g) x with
+  match splitKeep (eqChar g) x with
   | [] => none
   | first :: rest =>
     if 1 ≤ first.length ∧ first.length ≤ 3 ∧ rest.all (fun p => p.length == 3) then
@@ -208,12 +209,12 @@ structure Dec where
   p : Nat
   deriving DecidableEq, Repr
 
-/-- **reading a formatted number** with grouping sign `g` and decimal sign `d` -/
+/-- **reading a formatted number** with grouping sign `g` and decimal sign `d`: optional `-`, grouped integer
+    part, and, after `d`, at least one decimal -/
 def parseNumber (g d : Char) (x : Str) : Option Dec :=
-  let (neg, body) := match x with
-    | '-' :: r => (true, r)
-    | _ => (false, x)
-  match splitKeep (· = d) body with
+  let neg := x.head? == some '-'
+  let body := if neg then x.drop 1 else x
+  match splitKeep (eqChar d) body with
   | [ip] => (parseGrouped g ip).map (fun n => ⟨neg, n, 0⟩)
   | [ip, fp] =>
     if fp.isEmpty then none else
